@@ -5,12 +5,21 @@
 cd "$(dirname "$0")" || exit 2
 mkdir -p .locks evidence replays
 /venv/bin/python harness/extract_all.py >/dev/null 2>&1 || echo "setup: some extractors failed (the checks will report it)"
-ids=$(/venv/bin/python -c "import json;print(' '.join(c['property_id'] for c in json.load(open('MANIFEST.json'))['checks']))")
+# "<id> <targets...>" per claimed property, from the property modules themselves (LEAN_MODEL_TARGETS + LEAN_PROOF_TARGETS)
+/venv/bin/python - <<'PY' > .locks/targets.txt 2>/dev/null
+import importlib, json, os, sys
+sys.path.insert(0, "harness")
+for c in json.load(open("MANIFEST.json"))["checks"]:
+    pid = c["property_id"]
+    try:
+        m = importlib.import_module("props." + pid.lower())
+        print(pid, " ".join(list(m.LEAN_MODEL_TARGETS) + list(m.LEAN_PROOF_TARGETS)))
+    except Exception:
+        print(pid, "drv_%s PyroProps.%s" % (pid.lower(), pid))
+PY
 cd lean || exit 2
-for id in $ids; do
-  lc=$(echo "$id" | tr 'A-Z' 'a-z')
-  extra=""
-  [ -f "PyroProps/${id}Ast.lean" ] && extra="PyroProps.${id}Ast"     # theorems about the transcribed source (C17)
-  flock ../.locks/lake.lock lake build "drv_$lc" "PyroProps.$id" $extra 2>&1 | grep -v 'conda.cli' | tail -n 3
-done
+while read -r id targets; do
+  # shellcheck disable=SC2086
+  flock ../.locks/lake.lock lake build $targets 2>&1 | grep -v 'conda.cli' | tail -n 3
+done < ../.locks/targets.txt
 exit 0
